@@ -79,9 +79,12 @@ func (b *Bytes) Slice(start, end int64) (Blob, error) {
 	if end < 0 || end > int64(b.Len()) {
 		return nil, fmt.Errorf("End index out of bounds: %d", end)
 	}
+	if start > end {
+		return nil, fmt.Errorf("Start index %d is greater than end index %d", start, end)
+	}
 	buf := make([]byte, end-start)
 	b.mu.Lock()
-	copy(buf, b.bytes)
+	copy(buf, b.bytes[start:end])
 	b.mu.Unlock()
 	return NewBytes(buf), nil
 }
